@@ -117,8 +117,12 @@ func (v *authorizer) Authorize() error {
 	// token ements should first be converted to builder elements
 	// with the token's symbol table, then converted back
 	// with the verifier's symbol table
+	// a block may only refer to the default symbols, its own table and the tables of earlier
+	// blocks: resolve each block against that prefix, so that a later block cannot give a
+	// meaning to a symbol index that was dangling in an earlier one
+	authoritySymbols := v.biscuit.symbolsUpTo(0)
 	for _, fact := range *v.biscuit.authority.facts {
-		f, err := fromDatalogFact(v.biscuit.symbols, fact)
+		f, err := fromDatalogFact(authoritySymbols, fact)
 		if err != nil {
 			return fmt.Errorf("biscuit: verification failed: %s", err)
 		}
@@ -126,7 +130,7 @@ func (v *authorizer) Authorize() error {
 	}
 
 	for _, rule := range v.biscuit.authority.rules {
-		r, err := fromDatalogRule(v.biscuit.symbols, rule)
+		r, err := fromDatalogRule(authoritySymbols, rule)
 		if err != nil {
 			return fmt.Errorf("biscuit: verification failed: %s", err)
 		}
@@ -159,7 +163,7 @@ func (v *authorizer) Authorize() error {
 	}
 
 	for i, check := range v.biscuit.authority.checks {
-		ch, err := fromDatalogCheck(v.biscuit.symbols, check)
+		ch, err := fromDatalogCheck(authoritySymbols, check)
 		if err != nil {
 			return fmt.Errorf("biscuit: verification failed: %s", err)
 		}
@@ -209,9 +213,10 @@ func (v *authorizer) Authorize() error {
 
 	for i, block := range v.biscuit.blocks {
 		block_world := v.world.Clone()
+		blockSymbols := v.biscuit.symbolsUpTo(i + 1)
 
 		for _, fact := range *block.facts {
-			f, err := fromDatalogFact(v.biscuit.symbols, fact)
+			f, err := fromDatalogFact(blockSymbols, fact)
 			if err != nil {
 				return fmt.Errorf("biscuit: verification failed: %s", err)
 			}
@@ -219,7 +224,7 @@ func (v *authorizer) Authorize() error {
 		}
 
 		for _, rule := range block.rules {
-			r, err := fromDatalogRule(v.biscuit.symbols, rule)
+			r, err := fromDatalogRule(blockSymbols, rule)
 			if err != nil {
 				return fmt.Errorf("biscuit: verification failed: %s", err)
 			}
@@ -231,7 +236,7 @@ func (v *authorizer) Authorize() error {
 		}
 
 		for j, check := range block.checks {
-			ch, err := fromDatalogCheck(v.biscuit.symbols, check)
+			ch, err := fromDatalogCheck(blockSymbols, check)
 			if err != nil {
 				return fmt.Errorf("biscuit: verification failed: %s", err)
 			}
